@@ -153,6 +153,54 @@ def g_riemann():
     return functions_group('riemann/utils.py', 'Riemann', specs, inst_attrs=IG)
 
 
+def methods_group(relpath, outname, specs):
+    """specs: list of (coq prefix, class, [self attribute names], [(method, [arg names])])"""
+    from gen import translate_method, nan_cond, strip_nan
+    from py2coq import coq_prop, cnot, free_vars
+    mod = Module(os.path.join(S, relpath))
+    text = HEADER % ('exactpack/solvers/' + relpath)
+    js = {}
+    for pfx, cname, selfvars, methods in specs:
+        for mname, argv in methods:
+            ret, interp = translate_method(mod, cname, mname, argv, selfvars)
+            if not is_expr(ret):
+                raise Unsupported('%s.%s.%s does not return a number' % (relpath, cname, mname))
+            nm = '%s_%s' % (pfx, mname)
+            dom = cnot(nan_cond(ret))
+            for (path, exc, msg, ln) in interp.raises:
+                from py2coq import cand
+                dom = cand(dom, cnot(path))
+            e = strip_nan(ret)
+            allargs = list(argv) + [a for a in selfvars]
+            for v in free_vars(e):
+                if v not in allargs:
+                    raise Unsupported('%s.%s.%s: stray variable %s' % (relpath, cname, mname, v))
+            text += '\n' + emit_function(nm, allargs, e, comment='%s.%s(%s)' % (cname, mname, ', '.join(argv)))
+            text += '#[global] Hint Unfold %s : epgen.\n' % nm
+            sig = '(%s : R)' % ' '.join(gen.coq_name(a) for a in allargs)
+            text += 'Definition %s_dom %s : Prop := %s.\n' % (nm, sig, coq_prop(dom))
+            js[nm] = {'args': allargs, 'expr': expr_to_json(e), 'dom': expr_to_json(dom), 'class': cname, 'method': mname}
+    return {outname: (text, js)}
+
+
+EOS_METHODS = [('P', ['rho', 'e']), ('dP_drho', ['rho', 'e']), ('dP_de', ['rho', 'e']),
+               ('e', ['rho', 'P']), ('de_dP', ['rho', 'P']), ('de_drho', ['rho', 'P'])]
+
+
+@group('eos')
+def g_eos():
+    ST = ['reference_density', 'reference_pressure', 'reference_gruneisen', 'b', 'c_0', 's_1', 's_2', 's_3']
+    specs = [
+        ('eos_ideal', 'ideal_gas_eos', ['gamma'], EOS_METHODS),
+        ('eos_stiff', 'stiffened_gas_eos', ['gamma', 'c_s', 'rho_inf'], EOS_METHODS),
+        ('eos_na', 'noble_abel_eos', ['gamma', 'b'], EOS_METHODS),
+        ('eos_cs', 'carnahan_starling_eos', ['gamma', 'b'], [m for m in EOS_METHODS if m[0] != 'de_drho'] + [('de_drho', ['P', 'rho']), ('Z', ['eta']), ('dZ_deta', ['eta'])]),
+        ('eos_st', 'steinberg', ST, EOS_METHODS + [('P_inf', ['rho']), ('e_inf', ['rho']), ('gruneisen', ['rho']), ('dPinf_drho', ['rho']),
+                                                   ('deinf_drho', ['rho']), ('dgru_drho', ['rho']), ('eta', ['rho'])]),
+    ]
+    return methods_group('nohblackboxeos/equations_of_state/eos_library.py', 'EosLibrary', specs)
+
+
 @group('catalogue')
 def g_catalogue():
     import catalogue
